@@ -33,12 +33,12 @@ RULES = ['wiener upper', 'wiener lower', 'hashin upper', 'hashin lower', 'lab']
 
 def plan(tier):
     if tier == 'quick':
-        return dict(runs=64 + 600, batch=4, hard_timeout=900, soft_timeout=400)
+        return dict(runs=128 + 1000, batch=4, hard_timeout=900, soft_timeout=400)
     return dict(runs=2000 + 30000, batch=20, hard_timeout=2400, soft_timeout=900)
 
 
 def generate(rng, tier, index):
-    nreal = 64 if tier == 'quick' else 2000
+    nreal = 128 if tier == 'quick' else 2000
     if index < nreal:
         pts = []
         for _ in range(rng.randint(3, 6)):
